@@ -277,6 +277,14 @@ func (e *env) parseTensors(tok string) ([]tensor.Tensor, string) {
 	return out, ""
 }
 
+func (e *env) parseConf(tok string) (*tensor.Config, string) {
+	c, st := parseConf(tok)
+	if c != nil {
+		e.later(func() { c.Device, c.GradTrack = 9, !c.GradTrack })
+	}
+	return c, st
+}
+
 func parseConf(tok string) (*tensor.Config, string) {
 	switch tok {
 	case "T":
